@@ -1,5 +1,6 @@
 import SJ.Properties.C17
 import SJ.Proofs.SourceLevelB
+import SJ.Proofs.SourceLevelI
 set_option linter.unusedVariables false
 /-
 C17 — source level. The theorems of Properties/C17.lean composed with the source ties of DESIGN §6.3: each statement
@@ -35,5 +36,30 @@ theorem C17_source_roundtrip (pj : PJ) (d : List JVal) (hash : Bytes → Nat) (h
           WF { tape := s'.tape, strings := #[], msg := msg } d ∧ s'.tape.size = pj.tape.size ∧
           nopsExact { tape := s'.tape, strings := #[], msg := msg } = none :=
   SJ.SourceLevelB.C17_source_roundtrip pj d hash hwf hsz hb hbuf hnm tb vb htb F hF
+
+open SJ SJ.Generated SJ.GoSem SJ.GoIter SJ.GoObject SJ.Layout SJ.WalkLayout SJ.ParseDefs SJ.MarshalExact SJ.GoMarshal SJ.SourceLevelI SJ.TrimEdge SJ.GoPJForEach SJ.GoSerialize SJ.GoRebuild in
+/-- **Parse, then Serialize → Deserialize, source level (E3).**  ASSUMED: the trimmed input is shorter than 2^26 bytes (64 MiB:
+    the bound under which the serialized format's 55-bit string offsets cannot overflow for ANY tape of that input,
+    `len(tape)·len(buffers) < 2^55`) and the parser model returns the tape `pj`.  CONCLUDED: `pj` denotes a document `d`
+    (`WF pj d`), and for every hash function, every `s.tagsBuf` of 65536 bytes, any `s.valuesBuf` and fuel `F ≥ 3·n + 4`:
+    running the regenerated tape loop of `Serialize` falls off its end with the tape untouched, having handed `tags`,
+    `values`, `msg` to the block writers; and running the regenerated reconstruction loop of `Deserialize` on those streams
+    over ANY prior destination of the declared size (fuel `≥ len + 8`) returns `dst, nil` with a tape that — read with `msg`
+    as its `Message` — denotes the same `d`, has the same length and exact NOP skips.
+    Discharged from the parser facts: all five tape premises of `C17_source_roundtrip` (`WF`, `len(tape) < 2^56`, the 2^55
+    product bound, `BufOK`, `NoMaxLenString` — the last two through `StrShort`: both buffers are at most `n < 2^26` bytes
+    long) and the serializer's fuel. -/
+theorem C17_source_parse_roundtrip (cfg : Cfg) (nd : Bool) (input : Bytes) (pj : PJ)
+    (hsz : (trimSpace input).size < 2^26) (h : parseAny cfg nd input = .ok pj) (hash : Bytes → Nat)
+    (tb vb : Bytes) (htb : tb.size = 65536) (F : Nat) (hF : 3 * (trimSpace input).size + 4 ≤ F) :
+    ∃ d, WF pj d ∧
+    ∃ s tags values msg, runFun goFuns goSerialize_loop F (loopStore pj hash tb vb) = .ret s [] ∧ s.tape = pj.tape ∧
+      s.env.get "tagWr.out" = some (.bytes tags) ∧ s.env.get "valWr.out" = some (.bytes values) ∧
+      s.env.get "s.stringWr.out" = some (.bytes msg) ∧
+      ∀ (init : Array UInt64), init.size = pj.tape.size → ∀ (fuel : Nat), init.size + 8 ≤ fuel →
+        ∃ s', runFun goFuns goDeserialize_rebuild fuel (rebStore init tags values) = .ret s' [.bool true, .bool false] ∧
+          WF { tape := s'.tape, strings := #[], msg := msg } d ∧ s'.tape.size = pj.tape.size ∧
+          nopsExact { tape := s'.tape, strings := #[], msg := msg } = none :=
+  SJ.SourceLevelI.parse_then_serialize_roundtrip_source cfg nd input pj hsz h hash tb vb htb F hF
 
 end SJ.Properties.C17
